@@ -131,6 +131,10 @@ def run(ctx):
                         senv[f"p.{k}"] = float(obj.params[k])
                 if "isnone:p.A" not in senv:
                     senv["isnone:p.A"] = 1.0 if obj.params.get("A", 0) is None else 0.0
+                # the documented form is evaluated on what the *caller asked for*, not on what the instance kept
+                for k, v in desc["params"].items():
+                    senv[f"p.{k}"] = float("nan") if v is None else float(v)
+                    senv[f"isnone:p.{k}"] = 1.0 if v is None else 0.0
                 # opaque locals / dynamic table entries the spec refers to by the same names
                 for v in list(free_vars(tup(J["fits"]["Tinker08"]["fsigma"])) | free_vars(tup(J["fits"]["Tinker10"]["fsigma"]))):
                     if v not in senv and (v.startswith("loc:") or v.startswith("py:") or v.startswith("flag:")):
